@@ -47,8 +47,9 @@ prop(
                "mismatch is reported as inconclusive, not as a violation). Where the statement does not determine one answer the "
                "reference accepts a set: several rules of one kind+name on a side (added/modified), a changed rule in a renamed file "
                "(renamed/modified), rename combined with an edit (git's similarity heuristic: renamed or new file), a file "
-               "renamed into the parser filter on the branch (added / renamed / modified, never unmodified; inside-outside-inside: "
-               "nothing demanded). A path re-created after its file was renamed away is a new file (strict). A rename "
+               "renamed into the parser filter on the branch (added / renamed / modified, never unmodified; this includes a file that left the filter and came "
+               "back: it is a different file from the one deleted at that path, whose track stays dormant and is revived only by a "
+               "plain re-creation). A path re-created after its file was renamed away is a new file (strict). A rename "
                "onto a path deleted earlier on the branch is followed strictly (origin = rename source). The changed / not-changed split is "
                "always enforced with multiplicities. Group-level attributes (labels, interval) are never edited: the statement lists "
                "rule content only.",
